@@ -74,13 +74,27 @@ func runC20(c *Ctx) {
 		c.die("types_string.go has no type list header")
 	}
 	typeList := strings.Fields(string(m[1]))
+	var probeExtra []string
+	// hand-written types with the same String() contract (types_man.go: Bool)
+	if mc, mb, err := parseTypesGo(filepath.Join(repoDir, "types_man.go")); err == nil {
+		var extra []string
+		for t, ces := range mc {
+			if _, dup := consts[t]; !dup && mb[t] > 0 && len(ces) > 0 {
+				consts[t], bits[t] = ces, mb[t]
+				extra = append(extra, t)
+			}
+		}
+		sort.Strings(extra)
+		probeExtra = extra
+		c.Cov["hand_written_types"] = extra
+	}
 	rng := newRng(c.Seed)
 	// probe program
 	dir := c.scratchDir()
 	var src bytes.Buffer
 	src.WriteString("package main\n\nimport (\n\t\"fmt\"\n\t\"github.com/tormoder/fit\"\n)\n\nfunc main() {\n")
 	nvals := 0
-	for _, t := range typeList {
+	for _, t := range append(append([]string{}, typeList...), probeExtra...) {
 		w := bits[t]
 		if w == 0 {
 			c.report("stringer:type-missing", "types_string.go lists a type that types.go does not declare as an integer type: "+t, nil)
@@ -145,7 +159,13 @@ func runC20(c *Ctx) {
 		if len(p) != 3 {
 			continue
 		}
-		b, _ := json.Marshal(map[string]interface{}{"kind": "str", "t": p[0], "v": p[1], "s": p[2]})
+		man := 0
+		for _, t := range probeExtra {
+			if t == p[0] {
+				man = 1 // hand-written type: its table may keep the type prefix in the names
+			}
+		}
+		b, _ := json.Marshal(map[string]interface{}{"kind": "str", "t": p[0], "v": p[1], "s": p[2], "man": man})
 		tb.Write(b)
 		tb.WriteByte('\n')
 		nev++
